@@ -647,6 +647,17 @@ pub async fn run(a: &Args) -> Report {
         let mut e = t.server_entry("127.0.0.1", p(), "tcp");
         e["ssl"] = json!({"certificateFile": "/nonexistent/cert.pem", "keyFile": "/nonexistent/key.pem", "serverName": "x"});
         bad.push(("missing-certificate-files", e));
+        // an entry without its credential: nothing may listen (least of all something that takes the digest of "")
+        for (name, proto) in [("trojan-without-password", Proto::Trojan), ("shadowsocks-without-password", Proto::Ss(refimpl::ss::Method::Aes128Gcm)), ("shadowsocks-2022-without-password", Proto::Ss(refimpl::ss::Method::B3Aes128Gcm))] {
+            let c = Cfg::random(&mut rng, proto, 0);
+            let mut e = c.server_entry("127.0.0.1", p(), "tcp");
+            e.as_object_mut().unwrap().remove("password");
+            bad.push((name, e.clone()));
+            if proto == Proto::Trojan {
+                e["user"] = json!([{"name": "alice", "password": "alice's own password"}]);
+                bad.push(("trojan-without-password-but-with-a-user-list", e));
+            }
+        }
     }
     for (name, entry) in bad {
         let port = entry["port"].as_u64().unwrap_or(0) as u16;
